@@ -253,6 +253,12 @@ def oracle_C06(cmds, impl, model, stats: Stats):
             if m["ji"] == "T" and drows != [{}]:
                 out.append(Violation("C06", "join-identity-flag-disagrees-with-content",
                                      f"{name}: direct evaluation gives {field(sem, 'rows')}; tree {m['tree_text']}"))
+    # the short-cuts the Processor takes on static metadata (pruned chain branches, trivial payloads instead of hook
+    # calls) must not change a result: rows of the processed tree against direct evaluation
+    if any(c[0] == "process" for c in ctx.cmds):
+        for v in _process_checks("C06", ctx, Stats(), cmds):
+            if v.kind.startswith(("processed-rows-differ", "processed-tree-not-executable")):
+                out.append(Violation("C06", "short-cut-changed-a-result:" + v.kind, v.detail))
     # join elision must keep the predicate: compared through `sem` by C02/C01 oracles
     return out
 
